@@ -3,7 +3,7 @@
 C06-R3 decides cbreorder on terms, for a generic b; a test on the *content* of b (`b.max() < lb`, `np.all(np.diff(b) > 0)`, ...) is undecided
 there (exit 2).  Here the function is executed by value on a small world: M a 4 x 4 (drm: 3 x 4) matrix of distinct symbols, b every ordered
 selection of 1..4 distinct column numbers of range(4) (64 vectors: ascending and not, leading block and not, with and without a complement),
-drm and last both ways.  `locate.flippv` is modelled by its documented meaning (the ascending complement).  Required, cell by cell:
+drm and last both ways.  `locate.flippv` and `np.setdiff1d` are modelled by their documented meaning (the ascending complement / set difference).  Required, cell by cell:
 the result is M[ix_(pv, pv)] (drm: M[:, pv]) with pv = (b, q) or (q, b) - new row j is old DOF pv[j], in the caller's order of b.  Every
 entry of the result is a symbol that names its source cell, so nothing about the spelling of the permutation is looked at.  A world the
 interpreter cannot run is exit 2, never compared."""
@@ -30,6 +30,11 @@ def _hook(name, args, kwargs, node, ip):
         have = {G.int_of(x) for x in pv.flat()}
         n = G.int_of(n)
         out = [F.const(i) for i in range(n) if i not in have]
+        return N.Arr.new(out, (len(out),))
+    if short == "setdiff1d" and len(args) == 2 and not kwargs and all(isinstance(a, N.Arr) for a in args):
+        # documented: the sorted, unique values of ar1 that are not in ar2
+        drop = {G.int_of(x) for x in args[1].flat()}
+        out = [F.const(i) for i in sorted({G.int_of(x) for x in args[0].flat()} - drop)]
         return N.Arr.new(out, (len(out),))
     return NotImplemented
 
